@@ -211,11 +211,11 @@ def gen_shard(stats: Stats, shard_i, nshards, seed, tier):
             cases.append(tuple(cand)); meta.append(('mut', ['mut-phase-leak']))
     # scale: a memory of up to 255 entries before the program proper (indices around the signed-byte and byte boundaries), and
     # loads of the bulk entries afterwards
-    for case in batch[: max(3, len(batch) // 10)]:
+    for case in batch[: max(6, len(batch) // 5)]:
         lk = case.get('leak', 0)
-        nbulk = [100, 126, 127, 128, 129, 200, 254, 255][lk % 8]
+        nbulk = [100, 126, 127, 128, 129, 200, 254, 255, 256, 257, 300, 513][lk % 12]   # memory may outgrow what a Load can address
         bulk = bytes([2, lk % 3]) + bytes([28]) * nbulk + bytes([27])
-        tailk = [0, nbulk - 1, nbulk, 127, 128, (lk >> 3) % 256][(lk >> 3) % 6] % 256
+        tailk = [0, nbulk - 1, nbulk, 127, 128, (lk >> 3) % 256, 1, 46, 255][(lk >> 4) % 9] % 256
         ph = 2 if (lk >> 6) % 2 else 0
         cand = [case['g'], case['c'], case['p']]
         cand[ph] = bulk + cand[ph] + bytes([29, tailk]) + (bytes([27]) if (lk >> 7) % 2 else b'')
